@@ -230,9 +230,11 @@ class EventManager(Runnable):
         # user supplied events
         if self._queue:
             log.debug("User supplied events")
-            for (event, from_walk) in self._queue:
+            # other threads append to this list (CloudSync.walk, busy): take the entries out one by one instead of
+            # iterating and then replacing the list, which dropped whatever was appended in between
+            while self._queue:
+                (event, from_walk) = self._queue.pop(0)
                 self._process_event(event, from_walk=from_walk)
-            self._queue = []
 
         # regular events
         for event in self.provider.events():
